@@ -87,6 +87,10 @@ class Module:
         self.src = path.read_text(encoding="utf-8")
         self.sha = hashlib.sha256(self.src.encode()).hexdigest()
         self.tree = ast.parse(self.src, filename=str(path))
+        # undo pure renames of locals (see sa/alpha.py): verdicts are computed on an alpha-equivalent program
+        from .alpha import normalise
+
+        self.alpha_renamed = normalise(name, self.tree, self.sha)
         self.funcs: dict[str, ast.FunctionDef] = {}
         self.classes: dict[str, ClassInfo] = {}
         self.assigns: dict[str, list[ast.AST]] = {}
